@@ -49,9 +49,13 @@ func c01Oracle(e *gen.Expr, modes []lib.Mode, onlyMode, onlyKind string) (out []
 			out = append(out, m)
 		}
 	}
+	dyn := usesDynamicMember(e)
 	for _, m := range modes {
 		if onlyMode != "" && m.String() != onlyMode {
 			continue
+		}
+		if dyn && m.Env == "map" {
+			continue // a map environment types interface{} members from its sample values
 		}
 		var prog *vm.Program
 		var err error
